@@ -24,7 +24,7 @@ LEVEL_TEXT = ("Lean 4 theorems for all graphs (any number of packages, targets, 
               "dag.FindCycle, a model-independent reference validator, and a CLI-level run of grog check / grog build on generated workspaces.")
 LEVEL_NOTE = ("Trusted: Lean kernel; axioms propext/Classical.choice/Quot.sound; the correspondence harness (sampled beyond the exhaustive bound). "
               "Paths are compared lexically (as the code does): symlinks and re-entering the workspace root by its own name are not identified. "
-              "The memo table of getAncestorSet is not modelled (the model recomputes the ancestor set). Loader-level errors (unparsable labels, "
+              "The groups of the per-tag / per-path maps of detectOutputConflicts are visited in list order by the model (map order in Go); a theorem shows the memo table never changes an answer. Loader-level errors (unparsable labels, "
               "unknown output types) are outside this property (C16). A test target without a command is rejected by the code in the same pass; "
               "the theorem carries that as an explicit extra conjunct.")
 TECHNIQUE = "Lean 4 proof over an executable model + exhaustive-small/random differential correspondence with the Go analysis + reference validator"
@@ -39,6 +39,7 @@ OBLIGATIONS = [
     "Grog.C11.findCycle_complete",
     "Grog.C11.ancestorSet_eq_reach",
     "Grog.C11.ordered_iff",
+    "Grog.C11.ancestorCache_transparent",
     "Grog.C11.conflict_iff",
     "Grog.C11.clean_normal_form",
     "Grog.C11.within_iff_prefix",
@@ -696,7 +697,7 @@ def run(ctx):
         qs = [rng.choice(labs) for _ in range(rng.randint(1, 2 * n))]
         areqs.append({"op": "analysis.ancestors", "nodes": nodes, "queries": qs})
         areqs.append({"op": "analysis.ordered", "nodes": nodes, "pairs": [[rng.choice(labs), rng.choice(labs)] for _ in range(rng.randint(1, 3 * n))]})
-    canon_sets = lambda r: {"sets": [sorted((l["pkg"], l["name"]) for l in set_) for set_ in r["sets"]]} if "sets" in r else r
+    canon_sets = lambda r: {"sets": [sorted({(l["pkg"], l["name"]) for l in set_}) for set_ in r["sets"]]} if "sets" in r else r
     abad = ctx.diff(areqs, key=canon_sets)
     if abad is None:
         return
